@@ -61,7 +61,10 @@ func runC02(c *Ctx) {
 		{"serverConn.packet", `\(\*sio\.packetQueue\)\.add`, "packets"},
 		{"Manager.packet", `\(\*sio\.packetQueue\)\.add`, "packets"},
 	} {
-		fn := p.Fn("sio", a.fn)
+		fn := p.FnOpt("sio", a.fn)
+		if fn == nil {
+			continue // the forwarding wrapper was inlined: its callers enqueue directly (checked as producers below)
+		}
 		cs := CallsTo(Calls(fn), a.callee)
 		if len(cs) != 1 {
 			c.Ob("C02-D1", "sio."+a.fn+"/forwards", fn.Pos(), false, fmt.Sprintf("expected exactly one call to packetQueue.add, found %d", len(cs)))
@@ -72,9 +75,9 @@ func runC02(c *Ctx) {
 	}
 	// producers: one enqueue call with the full slice built from all buffers
 	for _, a := range []struct{ fn, callee, lenOf string }{
-		{"serverConn.sendBuffers", `\(\*sio\.serverConn\)\.packet`, "len(buffers)"},
-		{"clientSocket._sendBuffers", `\(\*sio\.Manager\)\.packet`, "len(buffers)"},
-		{"clientSocket.emitBuffered", `\(\*sio\.Manager\)\.packet`, "len(s.sendBuffer)"},
+		{"serverConn.sendBuffers", `\(\*sio\.serverConn\)\.packet|\(\*sio\.packetQueue\)\.add`, "len(buffers)"},
+		{"clientSocket._sendBuffers", `\(\*sio\.Manager\)\.packet|\(\*sio\.packetQueue\)\.add`, "len(buffers)"},
+		{"clientSocket.emitBuffered", `\(\*sio\.Manager\)\.packet|\(\*sio\.packetQueue\)\.add`, "len(s.sendBuffer)"},
 	} {
 		fn := p.Fn("sio", a.fn)
 		cs := CallsTo(Calls(fn), a.callee)
@@ -92,9 +95,9 @@ func runC02(c *Ctx) {
 		// every element of the slice is filled before the enqueue: stores into the slice happen at index 0 and i+1 — checked by the bounds prover in C10; here: no other enqueue-like call between
 	}
 	// who may call packetQueue.add / Manager.packet / serverConn.packet
-	whoMayCall(c, "C02-D1", `\(\*sio\.packetQueue\)\.add`, []string{"(*sio.serverConn).packet", "(*sio.Manager).packet"}, true)
-	whoMayCall(c, "C02-D1", `\(\*sio\.serverConn\)\.packet`, []string{"(*sio.serverConn).sendBuffers"}, true)
-	whoMayCall(c, "C02-D1", `\(\*sio\.Manager\)\.packet`, []string{"(*sio.clientSocket)._sendBuffers", "(*sio.clientSocket).emitBuffered"}, true)
+	whoMayCall(c, "C02-D1", `\(\*sio\.packetQueue\)\.add`, []string{"(*sio.serverConn).packet", "(*sio.Manager).packet", "(*sio.serverConn).sendBuffers", "(*sio.clientSocket)._sendBuffers", "(*sio.clientSocket).emitBuffered"}, true)
+	whoMayCall(c, "C02-D1", `\(\*sio\.serverConn\)\.packet`, []string{"(*sio.serverConn).sendBuffers"}, p.FnOpt("sio", "serverConn.packet") != nil)
+	whoMayCall(c, "C02-D1", `\(\*sio\.Manager\)\.packet`, []string{"(*sio.clientSocket)._sendBuffers", "(*sio.clientSocket).emitBuffered"}, p.FnOpt("sio", "Manager.packet") != nil)
 	// offline buffering keeps frames together too
 	{
 		fn := p.Fn("sio", "clientSocket._sendBuffers")
